@@ -33,7 +33,15 @@ def main():
             for o in blob["broken_obligations"]:
                 print("  ", o["name"], "-", o["detail"][:200])
             return 1
-        msg = mod.replay(blob["input"])
+        msg = mod.replay(blob["input"]) if hasattr(mod, "replay") else "RERUN"
+        if msg == "RERUN":
+            # deterministic re-run of the generating check with the recorded seed/tier,
+            # looking for the same failing input
+            ck = Check(pid, blob.get("tier", "quick"), blob.get("seed", 0))
+            ck.replaying = True
+            mod.run(ck)
+            hits = [f for f in ck.failures if f["input"] == blob["input"] or f["what"] == blob["what"]]
+            msg = hits[0]["what"] if hits else None
         if msg:
             print(f"REPLAY property={pid}: still fails: {msg}")
             return 1
